@@ -199,6 +199,7 @@ func genC11(repo, out string) {
 	}
 	genC11Read(repo, out)
 	genC11Create(repo, out) // get-or-create of the segstore table: pause points in segwriter.go (c11c.go)
+	genC11Flush(repo, out)  // concurrent flushes of different stores: pause points in flushBlockSummary (c11f.go)
 }
 
 // ---------------------------------------------------------------- read side (check-then-look-up windows)
